@@ -65,8 +65,12 @@ def canon_report(report_type: str, report: dict) -> Any:
         v = report[k]
         if k in ("session_id",):
             continue
-        if k in ("fleet_id", "vehicle_memberships", "memberships", "membership") and isinstance(v, str):
-            v = ",".join(sorted(v.split(",")))
+        if k in ("fleet_id", "vehicle_memberships", "memberships", "membership"):
+            # set-valued: the print order of the members may differ between runs (allowed by C01)
+            if isinstance(v, str):
+                v = ",".join(sorted(v.split(",")))
+            elif isinstance(v, (list, tuple)):
+                v = sorted(v, key=repr)
         out.append((k, repr(canon(v))))
     return (report_type, tuple(out))
 
